@@ -27,8 +27,10 @@ SAN = "-fsanitize=address,undefined -fno-omit-frame-pointer -fno-sanitize-recove
 SAN = "-fsanitize=address,undefined -fno-omit-frame-pointer"
 
 TREES = {
+    # the sanitizer trees are compiled by clang through harness/cxxwrap, which hands a translation unit that clang refuses
+    # and gcc accepts (the project's own compiler) to gcc with the same flags
     "asan": dict(
-        cc="clang", cxx="clang++",
+        cc=os.path.join(HARNESS, "ccwrap"), cxx=os.path.join(HARNESS, "cxxwrap"),
         flags="-DBLOC_VERIF " + SAN,
         rel="-O1 -g -DNDEBUG",
         link=SAN,
@@ -36,7 +38,7 @@ TREES = {
         extra=[],
     ),
     "tsan": dict(
-        cc="clang", cxx="clang++",
+        cc=os.path.join(HARNESS, "ccwrap"), cxx=os.path.join(HARNESS, "cxxwrap"),
         flags="-DBLOC_VERIF -fsanitize=thread -fno-omit-frame-pointer",
         rel="-O1 -g -DNDEBUG",
         link="-fsanitize=thread",
